@@ -137,19 +137,28 @@ def _run(item: Tuple[int, str, Any]) -> Tuple[int, str, Dict[str, Any]]:
 # ------------------------------------------------------------------------------------
 # parent side
 
-def _jsonable(x: Any, depth: int = 0) -> Any:
+def _jsonable(x: Any, limit: Optional[int] = 4000) -> Any:
+    """JSON-able copy; strings longer than `limit` are truncated (evidence samples) unless limit is None (replay files)."""
     if isinstance(x, (str, int, float, bool)) or x is None:
         if isinstance(x, str):
-            x = x.encode('utf-8', 'backslashreplace').decode('utf-8')
-            return x if len(x) <= 4000 else x[:4000] + '…[truncated]'
+            if limit is not None:
+                x = x.encode('utf-8', 'backslashreplace').decode('utf-8')
+                return x if len(x) <= limit else x[:limit] + '…[truncated]'
+            try:
+                x.encode('utf-8')
+                return x
+            except UnicodeEncodeError:
+                return {'__surrogates__': x.encode('utf-8', 'surrogatepass').decode('latin-1')}
         return x
     if isinstance(x, bytes):
-        return {'__bytes__': x.decode('latin-1')} if len(x) < 4000 else {'__bytes__': x[:4000].decode('latin-1'), 'truncated': True}
+        if limit is None or len(x) < limit:
+            return {'__bytes__': x.decode('latin-1')}
+        return {'__bytes__': x[:limit].decode('latin-1'), 'truncated': True}
     if isinstance(x, dict):
-        return {str(k): _jsonable(v, depth + 1) for k, v in x.items()}
+        return {str(k): _jsonable(v, limit) for k, v in x.items()}
     if isinstance(x, (list, tuple, set, frozenset)):
         seq = sorted(x, key=repr) if isinstance(x, (set, frozenset)) else x
-        return [_jsonable(v, depth + 1) for v in seq]
+        return [_jsonable(v, limit) for v in seq]
     return repr(x)
 
 
@@ -158,6 +167,8 @@ def unjson(x: Any) -> Any:
     if isinstance(x, dict):
         if set(x) <= {'__bytes__', 'truncated'} and '__bytes__' in x:
             return x['__bytes__'].encode('latin-1')
+        if set(x) == {'__surrogates__'}:
+            return x['__surrogates__'].encode('latin-1').decode('utf-8', 'surrogatepass')
         return {k: unjson(v) for k, v in x.items()}
     if isinstance(x, list):
         return [unjson(v) for v in x]
@@ -262,7 +273,7 @@ def run_check(prop: str, tier: str, workers: int = 16, only_label: Optional[str]
         os.makedirs(replay_dir, exist_ok=True)
         path = os.path.join(replay_dir, hashlib.sha1(s.encode()).hexdigest()[:12] + '.json')
         with open(path, 'w', encoding='utf-8') as fh:
-            json.dump({'property': prop, 'sig': s, 'what': v['what'], 'case': _jsonable(v['case']),
+            json.dump({'property': prop, 'sig': s, 'what': _jsonable(v['what']), 'case': _jsonable(v['case'], None),
                        'cases_with_this_sig': len(by_sig[s]), 'tier': tier, 'repo_head': repo_head()}, fh, indent=1, ensure_ascii=True)
         # confirm in a fresh process: the same case must fail the same way again
         if os.environ.get('VERIF_NO_CONFIRM'):
